@@ -29,7 +29,7 @@ RULE = ("scenario = one conversation (initialize + 1..5 list/call/read/get/ping/
         "several classes, 0..3 notifications before each response, string and integer ids) run over every carrier able to express it, with "
         "per-carrier nuisance (latency, chunking); non-trivial = at least two carriers ran and the conversation has a notification, an error "
         "reply, an integer id or non-ASCII payload")
-PROBES = ["server_greets_at_connection_time", "greeting_in_same_chunk_as_endpoint", "http_session_assigned_with_initialize_result", "http_sse_untyped_events_after_keepalive", "through_mcpclient", "slow_notification_transit_on_http", "over_100_notifications_in_session", "sse_event_before_202", "notifications_before_response", "error_reply", "int_id", "non_ascii_payload", "four_carriers", "nested_nulls"]
+PROBES = ["lone_surrogate_escape_in_server_text", "legacy_sse_untyped_event_with_endpoint_like_payload", "server_greets_at_connection_time", "greeting_in_same_chunk_as_endpoint", "http_session_assigned_with_initialize_result", "http_sse_untyped_events_after_keepalive", "through_mcpclient", "slow_notification_transit_on_http", "over_100_notifications_in_session", "sse_event_before_202", "notifications_before_response", "error_reply", "int_id", "non_ascii_payload", "four_carriers", "nested_nulls"]
 TIERS = {"quick": {"runs": 3000, "wall": 45.0}, "thorough": {"runs": 80000, "wall": 560.0}}
 ASSUMPTIONS = ["fault-free by construction: only latency and chunking vary between carriers",
                "JSON-body HTTP runs only conversations without interleaved notifications (a single JSON object cannot express them)",
@@ -48,6 +48,10 @@ def generate(rng: random.Random, tier: str) -> dict:
         e = {"helper": h, "notifs": rng.choice([0, 0, 1, 2, 3, 3, 45, 70] if rng.random() < 0.25 else [0, 0, 1, 2, 3]), "reply": rng.choice(["result", "result", "result", "error"]),
              "code": rng.choice([-32601, -32602, -32603, -32000, -32001, 42, 401]), "text": rng.choice(TEXTS), "nulls": rng.random() < 0.4,
              "data": rng.choice([None, {"d": 1}, "str", [1, None]])}
+        if rng.random() < 0.12:
+            # text only the server says (results, errors, notifications): an emoji cut in half as JSON.stringify emits it, paths that
+            # look like endpoint announcements
+            e["stext"] = rng.choice([" cut\ud83d", " \udc00tail", " file:///srv/mcp/notes.txt", " see /messages/?x=1", " 1e400"])
         if h == "raw":
             e["id"] = rng.choice([f"raw-{k}", k + 10, f"{k + 10}", -k - 1, 2 ** 53 + k])
         ex.append(e)
@@ -62,7 +66,8 @@ def generate(rng: random.Random, tier: str) -> dict:
                          "sse_post_lat": rng.choice([1, 1, 30, 200]), "sse_event_first": rng.random() < 0.4,
                          "notif_transit": rng.choice([0, 0, 40, 300]), "sse_style": rng.choice([None, None, "untyped"]),
                          # a session-keeping Streamable HTTP server: id assigned with the InitializeResult only / repeated on every reply / no sessions
-                         "http_session": rng.choice([None, "init_only", "init_only", "every"])}}
+                         "http_session": rng.choice([None, "init_only", "init_only", "every"]),
+                         "ascii_json": rng.random() < 0.2, "legacy_sse_style": rng.choice([None, None, "untyped"])}}
 
 
 def simplify(scn):
@@ -75,16 +80,30 @@ def simplify(scn):
     if scn["init"] and scn.get("client_api") != "mcpclient":
         c = copy.deepcopy(scn); c["init"] = False; yield c
     n = scn["nuisance"]
-    if n["lat"] or n["chunk"] or n["sse_chunk"] or n.get("sse_event_first") or n.get("notif_transit") or n.get("sse_style"):
-        c = copy.deepcopy(scn); c["nuisance"] = {"lat": 0, "chunk": None, "sse_chunk": None, "sse_post_lat": 1, "sse_event_first": False, "notif_transit": 0, "sse_style": None}; yield c
+    if n["lat"] or n["chunk"] or n["sse_chunk"] or n.get("sse_event_first") or n.get("notif_transit") or n.get("sse_style") or n.get("ascii_json") or n.get("legacy_sse_style"):
+        c = copy.deepcopy(scn); c["nuisance"] = {"lat": 0, "chunk": None, "sse_chunk": None, "sse_post_lat": 1, "sse_event_first": False, "notif_transit": 0, "sse_style": None, "http_session": None, "ascii_json": False, "legacy_sse_style": None}; yield c
     for i, e in enumerate(scn["exchanges"]):
+        if e.get("stext"):
+            c = copy.deepcopy(scn); del c["exchanges"][i]["stext"]; yield c
         for key, val in (("notifs", 0), ("nulls", False), ("text", "plain"), ("data", None)):
             if e.get(key) != val:
                 c = copy.deepcopy(scn); c["exchanges"][i][key] = val; yield c
 
 
+def _dumps(m, scn=None) -> str:
+    """the server's JSON: non-ASCII kept raw unless the conversation asks for \\u escapes or the text cannot be encoded raw (lone surrogate)"""
+    if scn is not None and scn["nuisance"].get("ascii_json"):
+        return json.dumps(m, ensure_ascii=True)
+    txt = json.dumps(m, ensure_ascii=False)
+    try:
+        txt.encode("utf-8")
+        return txt
+    except UnicodeEncodeError:
+        return json.dumps(m, ensure_ascii=True)
+
+
 def _result_for(e, k):
-    t, mk = e["text"], f"mk{k}"
+    t, mk = e["text"] + e.get("stext", ""), f"mk{k}"
     nul = {"n": None, "deep": [None, {"x": None}]} if e["nulls"] else {}
     h = e["helper"]
     if h == "tools_list":
@@ -106,7 +125,7 @@ def _result_for(e, k):
 
 def _reply(e, k, rid):
     if e["reply"] == "error":
-        err = {"code": e["code"], "message": "err " + e["text"]}
+        err = {"code": e["code"], "message": "err " + e["text"] + e.get("stext", "")}
         if e["data"] is not None:
             err["data"] = e["data"]
         return {"jsonrpc": "2.0", "id": rid, "error": err}
@@ -114,7 +133,7 @@ def _reply(e, k, rid):
 
 
 def _notifs(e, k):
-    return [{"jsonrpc": "2.0", "method": "notifications/message", "params": {"level": "info", "data": f"{e['text']} n{k}.{j}", "j": j}}
+    return [{"jsonrpc": "2.0", "method": "notifications/message", "params": {"level": "info", "data": f"{e['text']}{e.get('stext', '')} n{k}.{j}", "j": j}}
             for j in range(e["notifs"])]
 
 
@@ -289,7 +308,7 @@ def _run_stdio(scn):
             msgs = _server_messages(scn, posted)
             if not msgs:
                 return []
-            data = b"".join(json.dumps(m, ensure_ascii=False).encode() + b"\n" for m in msgs)
+            data = b"".join(_dumps(m, scn).encode() + b"\n" for m in msgs)
             ch = n["chunk"]
             pieces = [data[i:i + ch] for i in range(0, len(data), ch)] if ch else [data]
             return [(ticks(n["lat"]) + ticks(1), pieces)]
@@ -307,12 +326,12 @@ def _run_stdio(scn):
     return main, st
 
 
-def _sse_body(msgs, style=None):
+def _sse_body(msgs, style=None, scn=None):
     """style: None = every message typed 'event: message'; 'untyped' = default-typed events behind a data-less 'event: ping' keep-alive
     and comment lines (all legal framing that carries no message)"""
     if style == "untyped":
-        return (": keep-alive\n\nevent: ping\n\n" + "".join(f"data: {json.dumps(m, ensure_ascii=False)}\n\n: c\n\n" for m in msgs)).encode()
-    return "".join(f"event: message\ndata: {json.dumps(m, ensure_ascii=False)}\n\n" for m in msgs).encode()
+        return (": keep-alive\n\nevent: ping\n\n" + "".join(f"data: {_dumps(m, scn)}\n\n: c\n\n" for m in msgs)).encode()
+    return "".join(f"event: message\ndata: {_dumps(m, scn)}\n\n" for m in msgs).encode()
 
 
 def _run_http(scn, sse_bodies: bool):
@@ -345,10 +364,10 @@ def _run_http(scn, sse_bodies: bool):
             if not msgs:
                 return {"latency": ticks(n["lat"]), "status": 202, "headers": dict(hdr), "chunks": [(0, b"")]}
             if sse_bodies:
-                raw = _sse_body(msgs, n.get("sse_style"))
+                raw = _sse_body(msgs, n.get("sse_style"), scn)
                 ct = "text/event-stream"
             else:
-                raw = json.dumps(msgs[0], ensure_ascii=False).encode()
+                raw = _dumps(msgs[0], scn).encode()
                 ct = "application/json"
             ch = n["chunk"]
             chunks = [(0, raw[i:i + ch]) for i in range(0, len(raw), ch)][:300] if ch else [(0, raw)]
@@ -412,7 +431,7 @@ def _run_sse(scn):
             posted = json.loads(rec["body"]) if rec["body"] else None
             msgs = _server_messages(scn, posted)
             if msgs:
-                raw = _sse_body(msgs)
+                raw = _sse_body(msgs, n.get("legacy_sse_style"), scn)
                 ch = n["sse_chunk"]
                 pieces = [raw[i:i + ch] for i in range(0, len(raw), ch)] if ch else [raw]
 
@@ -551,6 +570,10 @@ def execute(scn: dict) -> dict:
         probe("four_carriers")
     if scn.get("client_api") == "mcpclient":
         probe("through_mcpclient")
+    if any("\\ud" in json.dumps(e.get("stext", "")) for e in scn["exchanges"]):
+        probe("lone_surrogate_escape_in_server_text")
+    if scn["nuisance"].get("legacy_sse_style") == "untyped" and any("/m" in e.get("stext", "") for e in scn["exchanges"]):
+        probe("legacy_sse_untyped_event_with_endpoint_like_payload")
     if scn["nuisance"].get("sse_style") == "untyped":
         probe("http_sse_untyped_events_after_keepalive")
     if scn["nuisance"].get("sse_event_first") and scn["nuisance"].get("sse_post_lat", 1) > 1:
